@@ -167,6 +167,9 @@ func GenFlow(t *rapid.T, name string, o GenOpts) *rt.Spec {
 		unit++
 		ts.In = pickIn(3, extOnly)
 		nout := []int{0, 1, 1, 1, 1, 1, 1, 2, 2, 3}[uniform(t, "nout", 10)]
+		if o.ModSubset && nout == 0 {
+			nout = 1 // cff.Invoke is a task option: outside the modifier-mode subset
+		}
 		for k := 0; k < nout; k++ {
 			if tr, ok := pool.fresh(t, extOnly); ok {
 				ts.Out = append(ts.Out, tr)
